@@ -164,6 +164,24 @@ theorem C21_too_big_iff (ring : List Sec) (dflt : Nat) (ovs : List Override) (te
       have := h2 z hz
       omega
 
+/-! ### the configured order of the endpoints does not matter -/
+
+/-- **C21, stability under reordering.**  Reordering the configured endpoint list (any
+    permutation, no hash ties) gives the tenant the same nodes: the selection on the original base
+    ring is the selection on the reordered one with positions translated back.  (The order in
+    which Go's map iteration visits the zones only permutes the selected list, and the sub-ring
+    over a permuted node list is the same ring by `C18_ketama_perm`.) -/
+theorem C21_endpoint_order (eps : List Ep) (perm : List Nat) (h : IsPermOf perm eps.length) (hnt : NoTies eps)
+    (zoneAware : Bool) (dflt : Nat) (ovs : List Override) (tenant : String) (positions : Nat → List Nat) :
+    tenantShard zoneAware (mkRing eps) dflt ovs tenant positions =
+      (tenantShard zoneAware (mkRing (permute eps perm)) dflt ovs tenant positions).map (permFun perm) := by
+  rw [← mkRing_permute eps perm h hnt]
+  apply tenantShard_ren
+  intro a ha b hb hab
+  obtain ⟨s, hs, rfl⟩ := List.mem_map.mp ha
+  obtain ⟨t, ht, rfl⟩ := List.mem_map.mp hb
+  exact injOn_permFun eps perm h s hs t ht hab
+
 /-! ### the replicas stay inside the sub-ring -/
 
 /-- **C21, inside.**  The sub-ring is the ketama ring over the selected nodes: whatever their
